@@ -15,12 +15,17 @@
 //
 // The schedule is replayed EXACTLY on the implementation: the Consul simulator parks every HTTP
 // request and the controller releases them in schedule order (consul.go, exec.go).
+//
+// A second, ENVIRONMENT-LEVEL stream — inputs `(hooks reqs nTasks)`, whose first element is a
+// list — replays request histories on a real Environment and observes the run numbers it hands
+// to its successive start attempts: see envstream.go.
 package c07
 
 import (
 	"fmt"
 	"strconv"
 
+	"verifharness/envh"
 	"verifharness/fw"
 	"verifharness/rng"
 	"verifharness/sx"
@@ -32,7 +37,10 @@ const nRigs = 8
 
 var rigs chan *rig
 
-func setup(string) error {
+func setup(work string) error {
+	if err := envSetup(work); err != nil {
+		return err
+	}
 	if rigs != nil {
 		return nil
 	}
@@ -48,6 +56,7 @@ func setup(string) error {
 }
 
 func teardown() {
+	envh.Teardown()
 	if rigs == nil {
 		return
 	}
@@ -58,6 +67,9 @@ func teardown() {
 }
 
 func runImpl(input string) (obs string, err error) {
+	if isEnvInput(input) {
+		return runEnv(input) // environment-level stream, see envstream.go
+	}
 	g := <-rigs
 	defer func() {
 		if r := recover(); r != nil {
@@ -415,7 +427,9 @@ func generate(tier string, r *rng.R) []fw.Case {
 	for i := 0; i < nRandom; i++ {
 		cs = append(cs, genRandom(r.Fork(), maxCallers, maxLen))
 	}
-	return cs
+	// the environment-level stream goes first: its cases run one at a time (envh is process-global)
+	// while the other workers replay protocol schedules
+	return append(generateEnv(tier, r.Fork()), cs...)
 }
 
 // search: the wider stream used only after the correspondence broke without a Spec failure
@@ -439,6 +453,9 @@ func search(r *rng.R) []fw.Case {
 // schedule is not a plain sequence of undisturbed calls (a refused CAS, an error, a dead or
 // pending caller, or a foreign write/delete occurred).
 func nontrivial(input, obs string) bool {
+	if isEnvInput(input) {
+		return nontrivialEnv(input, obs)
+	}
 	in, err := sx.Parse(input)
 	if err != nil {
 		return false
@@ -469,6 +486,9 @@ func nontrivial(input, obs string) bool {
 
 // shrink: drop one step; drop the last caller when no step names it.
 func shrinkCands(input string) []string {
+	if isEnvInput(input) {
+		return shrinkEnv(input)
+	}
 	in, err := sx.Parse(input)
 	if err != nil {
 		return nil
@@ -508,7 +528,7 @@ func init() {
 			"(no-ops for the real protocol; they drive variants that send more requests per call). RANDOM: 6000 (thorough 100000) schedules, " +
 			"1..8 (12) callers, <=30 (60) steps, foreign writes (65% non-lowering, 20% lowering, 15% junk), deletes, crashes, HTTP failures, " +
 			"no-op steps, initial key absent/number/near-wrap/junk. non-trivial = >=2 calls launched, >=1 number handed out and the calls " +
-			"were disturbed (refused CAS, error, dead/pending caller or foreign write/delete); distinct by input text",
+			"were disturbed (refused CAS, error, dead/pending caller or foreign write/delete); distinct by input text." + envRule,
 		Shrink:   shrinkCands,
 		Search:   search,
 		Workers:  nRigs,
@@ -518,11 +538,13 @@ func init() {
 			"harness/props/c07 Consul KV simulator (consul.go): index per write, cas semantics of kvsSetCASTxn, linearizable consistent GET",
 			"harness/props/c07 controller (exec.go): one caller runs at a time, so requests are attributed without tagging",
 			"github.com/hashicorp/consul/api client (real, unmodified) and net/http on loopback",
+			"environment-level stream: harness/envh (environment builder, probe plugin, event capture, scripted task-level bodies — the scripted START body resets currentRunNumber on failure as StartActivityTransition.do does) and the verif hooks it uses in /repo; apricot's mock:// (file) branch of NewRunNumber stands in for one undisturbed call of the protocol",
 		},
 		Assumptions: []string{
 			"Consul itself: a consistent-mode GET is linearizable, ModifyIndex grows with every write, PUT ?cas= is atomic (the simulator and the Lean model implement exactly this)",
 			"ForeignMonotone: nobody else lowers or deletes the counter (stated as a hypothesis of the theorems; cases violating it are executed and compared with the model, Spec is vacuous for them)",
 			"remote apricot (gRPC proxy in front of local.Service) adds no retry: one NewRunNumber RPC = one GetNextUInt32 call",
+			"the start attempts of ONE environment are sequential (TryTransition holds the environment's transition mutex — C01), so each is a complete call on the durable counter; other environments' calls in between are foreign-monotone writes for it",
 		},
 	})
 	fw.RegisterGen(fw.GenFile{Name: "C07Facts.lean", Make: genFacts})
